@@ -38,7 +38,8 @@ META = {
             "differ only in the number of outputs, model objectives that "
             "pull growing training data several times, systems with "
             "starting-state matrices of the wrong width (must be rejected "
-            "or handled inside the arrays). A case is non-trivial when it comes from the "
+            "or handled inside the arrays), multi_run_ode with compiled "
+            "controllers and equations of 1..3 control values. A case is non-trivial when it comes from the "
             "catalogue or is non-trivial under the rule of the property whose "
             "generator produced it; distinct = distinct (source, case) pairs",
     "assumptions": [
